@@ -408,6 +408,17 @@ func (r *Reliable) receive(pkt *frame) error {
 		case finWait1:
 			r.tubeState = closing
 			r.log.Debug("got FIN packet. going from finWait1 to closing")
+			// Simultaneous close: the peer may reach closed and forget the tube
+			// before its ACK of our FIN gets through, and then nobody answers
+			// our retransmissions. Bound the wait as lastAck does.
+			if r.lastAckTimer == nil {
+				r.lastAckTimer = time.AfterFunc(4*r.sender.RTT, func() {
+					r.l.Lock()
+					defer r.l.Unlock()
+					r.log.Warn("timer expired without getting ACK of FIN. going from closing to closed")
+					r.enterClosedState()
+				})
+			}
 		case finWait2:
 			r.log.Debug("got FIN packet. going from finWait2 to closed")
 			r.sender.sendEmptyPacket()
